@@ -216,6 +216,74 @@ def _one(m, cfg):
     return probs
 
 
+def general_predicates(m, seed, n):
+    """Numeric predicates on seeded GENERAL configurations (any roll / heading, pitch within +-80 deg, real-valued velocity, lever arm,
+    rate), computed by the harness and labelled as such: H against the central difference of the real residual along the real
+    correct_pva (1e-5 relative to max(1, |H|): the difference quotient is good to ~1e-7), z at the true state against C l / C (w x l),
+    shapes, R.  They reach what the exact domain cannot: terms that vanish at pitch 0."""
+    pd = m["pd"]; EMod = m["error_model"]; T = m["transform"]
+    rng = np.random.RandomState((seed * 7 + 3) % (2 ** 31))
+    probs = []
+    worst = 0.0
+    for k in range(n):
+        kind = ("pos", "ned", "body")[k % 3]
+        alt = bool((k // 3) % 2)
+        rph = [float(rng.uniform(-180, 180)), float(rng.uniform(-80, 80)), float(rng.uniform(-180, 180))]
+        vel = (5.0 * rng.randn(3)).tolist()
+        lever = None if (kind == "body" or k % 4 == 0) else (2.0 * rng.randn(3))
+        rate = None if k % 5 == 0 else (0.5 * rng.randn(3))
+        nine = LLA + VEL + RPH
+        vals = [float(rng.uniform(-80, 80)), float(rng.uniform(-179, 179)), float(rng.uniform(-100, 5000))] + vel + rph
+        pva = pd.Series(vals, index=nine, name=10.0)
+        if rate is not None:
+            pva = pd.concat([pva, pd.Series(rate, index=RATE)]); pva.name = 10.0
+        cfg = dict(kind=kind, lever=[] if lever is None else list(lever))
+        truth, cols = _truth(m, dict(kind=kind), pva)
+        data = pd.DataFrame([truth], index=pd.Index([10.0], name="time"), columns=cols)
+        M = m["measurements"]
+        meas = (M.Position(data, 2.0, lever) if kind == "pos" else M.NedVelocity(data, 3.0, lever) if kind == "ned" else M.BodyVelocity(data, 0.5))
+        em = EMod.InsErrorModel(alt)
+        tag = "%s with_altitude=%s rph=%s lever=%s rate=%s" % (kind, alt, np.round(rph, 2).tolist(), None if lever is None else np.round(lever, 2).tolist(),
+                                                               None if rate is None else np.round(rate, 2).tolist())
+        try:
+            z, H, R = meas.compute_matrices(10.0, pva, em)
+            z = np.asarray(z, float); H = np.asarray(H, float)
+            rows = 3 if (kind == "body" or alt) else 2
+            ni = 9 if alt else 7
+            if z.shape != (rows,) or H.shape != (rows, ni) or np.shape(R) != (rows, rows):
+                probs.append("general: shapes z %s H %s R %s (%s)" % (z.shape, H.shape, np.shape(R), tag)); continue
+            C = T.mat_from_rph(rph)
+            zt = np.zeros(3)
+            if kind == "pos" and lever is not None:
+                zt = C @ lever
+            if kind == "ned" and lever is not None and rate is not None:
+                zt = C @ np.cross(rate, lever)
+            if not np.allclose(z, zt[:rows], rtol=0, atol=1e-8):
+                probs.append("general: residual at the true state is %s, expected %s (%s)" % (np.round(z, 9).tolist(), np.round(zt[:rows], 9).tolist(), tag)); continue
+            h = np.array([1.0, 1.0, 1.0, 2.0 ** -10, 2.0 ** -10, 2.0 ** -10, 2.0 ** -12, 2.0 ** -12, 2.0 ** -12])
+            if not alt:
+                h = h[[0, 1, 3, 4, 6, 7, 8]]
+            Hfd = np.zeros((rows, ni))
+            for j in range(ni):
+                zz = []
+                for sgn in (1.0, -1.0):
+                    x = np.zeros(ni); x[j] = sgn * h[j]
+                    p = em.correct_pva(pva[nine], x)
+                    if rate is not None:
+                        p = pd.concat([p, pva[RATE]])
+                    p.name = 10.0
+                    zz.append(np.asarray(meas.compute_matrices(10.0, p, em)[0], float))
+                Hfd[:, j] = -(zz[0] - zz[1]) / (2 * h[j])
+            dev = float(np.abs(Hfd - H).max() / max(1.0, np.abs(H).max()))
+            worst = max(worst, dev)
+            if dev > 1e-5:
+                i = np.unravel_index(np.abs(Hfd - H).argmax(), H.shape)
+                probs.append("general: H is not the derivative of the residual: at (row %d, state %d) H = %.6g, dz/dx = %.6g (%s)" % (i[0], i[1], H[i], Hfd[i], tag))
+        except Exception as e:
+            probs.append("general: %s raised %s: %s" % (tag, type(e).__name__, str(e)[:100]))
+    return probs, worst
+
+
 def parse_prints(r, sink):
     for line in r.prints:
         v = tlc.parse_value(line)
@@ -232,6 +300,8 @@ def check(rep, pid, tier, seed):
         "H = dz/dx at general attitudes / near the pitch singularity is numeric and not decided",
         "the correction convention is the library's own correct_pva (error_model.py:277-301); the Position metres conversion is compared at 1e-6 relative",
         "the derivative of the real residual is a central difference whose entries are integers on this domain; |fraction| <= 1e-4 is required, then rounded",
+        "general attitudes (pitch within +-80 deg) are judged by numeric predicates computed by the harness (H vs the difference quotient of the real residual at 1e-5 "
+        "relative) - labelled `numeric_predicates` in the evidence, not TLC-decided",
     ]
     dom = domain_module(tier, seed)
     slices = [(k, a) for k in ("pos", "ned", "body") for a in (0, 1)]
@@ -283,8 +353,14 @@ def check(rep, pid, tier, seed):
                 rep.violation("C06 %s (with_altitude=%s, roll %g, heading %g, velocity %s, lever %s, rate %s): %s" % (
                     dict(pos="Position", ned="NedVelocity", body="BodyVelocity")[cfg["kind"]], cfg["alt"], ANGLE[cfg["rq"]], ANGLE[cfg["hq"]],
                     cfg["vel"], cfg["lever"] or None, cfg["rate"] or "absent", p), case, key=p[:40])
-    rep.traces += len(cfgs)
-    rep.evaluations += len(cfgs)
+    ng = 120 if tier == "quick" else 3000
+    gp, worst = general_predicates(filt._imports(), seed, ng)
+    for p in gp:
+        rep.violation("C06 numeric predicate, %s" % p, dict(mode="general", seed=seed, n=ng), key=p[:50])
+    rep.extra["numeric_predicates"] = dict(general_configurations=ng, disagreements=len(gp), worst_relative_deviation_of_H_from_the_difference_quotient=worst,
+                                           note="computed by the harness (central differences, 1e-5), not TLC-decided")
+    rep.traces += len(cfgs) + ng
+    rep.evaluations += len(cfgs) + ng
     for c in cfgs:
         rep.nontrivial.add((c["kind"], c["alt"], c["rq"], c["hq"], tuple(c["vel"]), tuple(c["lever"]), tuple(c["rate"])))
     rep.rule = "one configuration = (measurement class, altitude mode, roll, heading, velocity, lever arm or None, rate or absent); each is compared in H, z, R, dz/dx, availability"
@@ -296,6 +372,10 @@ def check(rep, pid, tier, seed):
 
 def replay(rep, pid, case):
     m = filt._imports()
+    if case.get("mode") == "general":
+        for p in general_predicates(m, case["seed"], case["n"])[0]:
+            rep.violation("C06 replay: %s" % p, case)
+        return
     for cfg, probs in replay_configs(m, [case["cfg"]]):
         for p in probs:
             rep.violation("C06 replay: %s" % p, case)
